@@ -62,7 +62,7 @@ Lemma append_attached_ok p c s s' :
   edit s s' p (if oid_eqb (n_parent (getn s c)) p then n_list (getn s p) ++ [c] else n_list (getn s p)).
 Proof.
   unfold append_attached. cbn [mbind node_of lift].
-  destruct (admission_checks _ _) as [[]|y]; [|discriminate].
+  destruct (acceptance_checks _ _) as [[]|y]; [|discriminate].
   destruct (oid_eqb (n_parent (getn s c)) p).
   - unfold do_append, modify. intros [= <-]. repeat split.
     + now rewrite getn_setn_same.
@@ -162,7 +162,7 @@ Proof.
     - eexists. split; [reflexivity|]. apply same_lists_setn; reflexivity. }
   destruct S1 as (s1 & -> & S1). cbn [mbind node_of lift].
   destruct (is_valid_child t _ _) as [[]|y]; cbn [negb mbind node_of lift]; try discriminate.
-  destruct (admission_checks _ _) as [[]|y]; [|discriminate].
+  destruct (acceptance_checks _ _) as [[]|y]; [|discriminate].
   unfold do_insert, modify. intros [= <-]. eapply same_then_edit; [exact S1|].
   destruct S1 as [L _]. rewrite <- (L p). repeat split.
   - now rewrite getn_setn_same.
